@@ -378,6 +378,45 @@ def rule_links(ctx, px):
     cond = [x for x in ast.walk(an.node) if isinstance(x, (ast.If, ast.Return, ast.Try, ast.While)) and x is not an.node]
     ok = len(adds) == 1 and len(sets) == 1 and not cond
     ctx.ob(R, m.rel, f"{an.short} :: child link and parent link are set together, unconditionally", ok, "", an.node.lineno)
+    # the factory's table is keyed by raw DSDL namespace names; a Namespace object reports its *stropped* name (full_namespace,
+    # short name), so a key taken from a Namespace object misses the entry for every namespace whose name needs stropping and the
+    # factory silently makes a second, unlinked object for it
+    mod = px.module(NS)
+    nsobj_sources = ("get_or_make_namespace", "get_root_namespace", "get_root_namesapce", "get_empty_namespace", "get_parent", "Namespace")
+    k_sites = 0
+    for fn in [f_ for f_ in px.all_funcs if f_.module is mod and f_.outer is None]:
+        ns_vars = set()     # locals holding Namespace objects: results of the factory / of tree navigation, elements of the table
+        for n_ in ast.walk(fn.node):
+            tgt_val = []
+            if isinstance(n_, ast.Assign):
+                tgt_val = [(t_, n_.value) for t_ in n_.targets]
+            elif isinstance(n_, (ast.For, ast.comprehension)):
+                tgt_val = [(n_.target, n_.iter)]
+            for t_, v_ in tgt_val:
+                vt = ast.unparse(v_)
+                from_table = "_namespaces" in vt and (".values()" in vt or "_namespaces[" in vt or ".items()" in vt)
+                from_factory = any(isinstance(c_, ast.Call) and (getattr(c_.func, "attr", None) or getattr(c_.func, "id", None)) in nsobj_sources for c_ in ast.walk(v_))
+                if from_table or from_factory:
+                    for x_ in ast.walk(t_):
+                        if isinstance(x_, ast.Name):
+                            ns_vars.add(x_.id)
+        for c_ in ast.walk(fn.node):
+            key = None
+            if isinstance(c_, ast.Call) and isinstance(c_.func, ast.Attribute) and c_.func.attr == "get_or_make_namespace" and c_.args:
+                key = c_.args[0]
+            if key is None:
+                continue
+            k_sites += 1
+            kv = pyfront.subst_locals(fn.node, key)
+            bad = [ast.unparse(a_) for a_ in ast.walk(kv) if isinstance(a_, ast.Attribute) and isinstance(a_.value, ast.Name) and a_.value.id in ns_vars
+                   and a_.attr in ("full_namespace", "full_name", "short_name", "_full_namespace", "_short_name", "_namespace_components_stropped", "namespace_components")]
+            # ... or directly off a call that returns a Namespace
+            bad += [ast.unparse(a_) for a_ in ast.walk(kv) if isinstance(a_, ast.Attribute) and a_.attr in ("full_namespace", "full_name", "short_name")
+                    and any(isinstance(c2, ast.Call) and (getattr(c2.func, "attr", None) in nsobj_sources) for c2 in ast.walk(a_.value))]
+            ctx.ob(R, m.rel, f"{fn.short} :: the namespace table is asked with a raw DSDL name (`{ast.unparse(key)[:50]}`)", not bad,
+                   "" if not bad else f"the key is built from {bad}, the stropped name of a Namespace object: for a namespace whose name is reserved in the target language "
+                   "(`register` -> `_register`) the lookup misses and a fresh, empty, unlinked namespace is returned - no type is generated, no error raised", c_.lineno)
+    ctx.floor(R + ":table-keys", k_sites, 3)
     # factory: read-through cache
     gm = px.func(NS, "_NamespaceFactory.get_or_make_namespace")
     ctor_calls = [c for c in ast.walk(gm.node) if isinstance(c, ast.Call) and isinstance(c.func, ast.Name) and c.func.id == "Namespace"]
@@ -476,11 +515,16 @@ def rule_links(ctx, px):
         pf = ns_cls.methods.get(pub)
         if pf is None:
             raise AnalysisError(f"anchor missing: Namespace.{pub}")
-        callee = [n.value.func.attr for n in ast.walk(pf.node) if isinstance(n, ast.YieldFrom) and isinstance(n.value, ast.Call)
-                  and isinstance(n.value.func, ast.Attribute) and n.value.func.attr in ns_cls.methods]
-        if len(callee) != 1:
+        # the walker the enumeration is built on: `yield from <walker>(...)` (it yields the entries itself) or
+        # `for ns in <walker>(...): yield ...` (it yields the namespaces, the enumeration picks the entries)
+        deleg = [(n.value, None) for n in ast.walk(pf.node) if isinstance(n, ast.YieldFrom) and isinstance(n.value, ast.Call)
+                 and isinstance(n.value.func, ast.Attribute) and n.value.func.attr in ns_cls.methods and n.value.func.attr.startswith("_")]
+        deleg += [(n.iter, n) for n in ast.walk(pf.node) if isinstance(n, ast.For) and isinstance(n.iter, ast.Call) and isinstance(n.iter.func, ast.Attribute)
+                  and n.iter.func.attr in ns_cls.methods and n.iter.func.attr.startswith("_")]
+        if len(deleg) != 1:
             raise AnalysisError(f"anchor missing: the generator Namespace.{pub} delegates to")
-        g = ns_cls.methods[callee[0]]
+        call, over = deleg[0]
+        g = ns_cls.methods[call.func.attr]
         rec = [n for n in ast.walk(g.node) if isinstance(n, ast.YieldFrom) and isinstance(n.value, ast.Call) and getattr(n.value.func, "attr", "") == g.name]
         ok = bool(rec)
         if ok:
@@ -490,9 +534,41 @@ def rule_links(ctx, px):
                 lp = pm.get(id(lp))
             ok = isinstance(lp, ast.For) and (bool(_calls(lp.iter, "get_nested_namespaces")) or "_nested_namespaces" in _attrs(lp.iter)) and \
                 not any(isinstance(x, (ast.If, ast.Continue, ast.Break)) for x in ast.walk(lp)) and not pyfront.guard_terms(pyfront.guards_of(g.node, rec[0]) or ())
+            # the recursion descends into the child: it is the receiver or the first argument of the recursive call
+            if ok and isinstance(lp.target, ast.Name):
+                rc = rec[0].value
+                ok = (isinstance(rc.func.value, ast.Name) and rc.func.value.id == lp.target.id) or (bool(rc.args) and ast.unparse(rc.args[0]) == lp.target.id)
         ctx.ob(R, m.rel, f"Namespace.{pub} :: its generator recurses into every nested namespace, unconditionally", ok, f"generator {g.short}", g.node.lineno)
-        # what the walker yields for this enumeration: own entries switched by constant flags of the public method only
-        _own_entries(ctx, R, m, pub, pf, g)
+        if over is None:
+            # what the walker yields for this enumeration: own entries switched by constant flags of the public method only
+            _own_entries(ctx, R, m, pub, pf, g)
+        else:
+            _own_entries_by_loop(ctx, R, m, pub, pf, g, over)
+
+
+def _own_entries_by_loop(ctx, R, m, pub, pf, g, over):
+    """the walker yields every namespace it visits (itself first, unconditionally); the enumeration's loop over it yields, unconditionally,
+    the nested types of each visited namespace and / or the namespace itself"""
+    params = [a.arg for a in g.node.args.args]
+    selfish = {params[0]} | ({params[1]} if len(params) > 1 and params[0] == "cls" else set())
+    yields_self = any(isinstance(st, ast.Expr) and isinstance(st.value, ast.Yield) and isinstance(st.value.value, ast.Name) and st.value.value.id in selfish
+                      for st in g.node.body)
+    want = {"get_all_datatypes": ["types"], "get_all_namespaces": ["namespace"], "get_all_types": ["types", "namespace"]}[pub]
+    v = over.target.id if isinstance(over.target, ast.Name) else "?"
+    have = set()
+    for st in over.body:     # top level of the loop body only: unconditional
+        txt = ast.unparse(st)
+        if isinstance(st, ast.Expr) and isinstance(st.value, ast.YieldFrom) and txt.replace(" ", "") in (f"yieldfrom{v}.get_nested_types()", f"yieldfrom{v}._data_type_to_outputs.items()"):
+            have.add("types")
+        if isinstance(st, ast.For) and ast.unparse(st.iter) in (f"{v}.get_nested_types()", f"{v}._data_type_to_outputs.items()") and any(isinstance(y, ast.Yield) for y in ast.walk(st)) \
+                and not any(isinstance(x, (ast.If, ast.Continue, ast.Break)) for x in ast.walk(st)):
+            have.add("types")
+        if isinstance(st, ast.Expr) and isinstance(st.value, ast.Yield) and ast.unparse(st.value.value).replace(" ", "") in (f"({v},{v}._output_path)", f"{v},{v}._output_path"):
+            have.add("namespace")
+    ok = yields_self and set(want) <= have
+    ctx.ob(R, m.rel, f"Namespace.{pub} :: yields {' and '.join(want)} of every visited namespace", ok,
+           "" if ok else (f"the walker {g.short} does not yield every namespace it visits" if not yields_self else f"the loop over the walker yields only {sorted(have)}"),
+           pf.node.lineno)
 
 
 def _own_entries(ctx, R, m, pub, pf, g):
@@ -586,43 +662,102 @@ def _ancestors(ctx, R, m, bt, px_=None):
     pm = pyfront.parent_map(bt.node)
     ok, detail = False, "no loop indexing the ancestors of a type's namespace was recognised"
     lp = None
+    def _resolve(fn, e, depth=0):
+        """a local that is assigned once is the expression it was assigned"""
+        return pyfront.subst_locals(fn, e)
+
+    def _is_components(fn, e):
+        """(is a prefix-preserving view of <type>.name_components, how many trailing components it lacks)"""
+        e = _resolve(fn, e)
+        if isinstance(e, ast.Attribute) and e.attr == "name_components":
+            return True, 0
+        if isinstance(e, ast.Subscript) and isinstance(e.slice, ast.Slice) and isinstance(e.value, ast.Attribute) and e.value.attr == "name_components" \
+                and (e.slice.lower is None or (isinstance(e.slice.lower, ast.Constant) and e.slice.lower.value == 0)) and e.slice.step is None:
+            up = e.slice.upper
+            if isinstance(up, ast.UnaryOp) and isinstance(up.op, ast.USub) and isinstance(up.operand, ast.Constant) and isinstance(up.operand.value, int):
+                return True, up.operand.value
+        return False, 0
+
+    def _affine(fn, e):
+        """(coefficient of L = len(name_components), constant) of an index expression, or None"""
+        e = _resolve(fn, e)
+        if isinstance(e, ast.Constant) and isinstance(e.value, int):
+            return (0, e.value)
+        if isinstance(e, ast.Call) and isinstance(e.func, ast.Name) and e.func.id == "len" and len(e.args) == 1:
+            isc, lacks = _is_components(fn, e.args[0])
+            return (1, -lacks) if isc else None
+        if isinstance(e, ast.UnaryOp) and isinstance(e.op, ast.USub):
+            v = _affine(fn, e.operand)
+            return None if v is None else (-v[0], -v[1])
+        if isinstance(e, ast.BinOp) and isinstance(e.op, (ast.Add, ast.Sub)):
+            a, b = _affine(fn, e.left), _affine(fn, e.right)
+            if a is None or b is None:
+                return None
+            sg = 1 if isinstance(e.op, ast.Add) else -1
+            return (a[0] + sg * b[0], a[1] + sg * b[1])
+        return None
+
+    def _prefix_loop(fn, lp_, produced):
+        """does `for i in range(...)` produce name_components[:i] for i = L-1 .. 1 (descending) or 1 .. L-1 (ascending)?  -> (ok, descending, why)"""
+        if not (isinstance(lp_.iter, ast.Call) and isinstance(lp_.iter.func, ast.Name) and lp_.iter.func.id == "range" and isinstance(lp_.target, ast.Name)):
+            return False, False, "not a range loop"
+        ra = [_affine(fn, a) for a in lp_.iter.args]
+        if any(a is None for a in ra):
+            return False, False, f"range({', '.join(ast.unparse(a) for a in lp_.iter.args)}) not understood"
+        desc = len(ra) == 3 and ra[2] == (0, -1)
+        if desc:
+            good = ra[0] == (1, -1) and ra[1] == (0, 0)
+        elif len(ra) == 2 or (len(ra) == 3 and ra[2] == (0, 1)):
+            good = ra[0] == (0, 1) and ra[1] == (1, 0)
+        else:
+            good = False
+        if not good:
+            return False, desc, f"range({', '.join(ast.unparse(a) for a in lp_.iter.args)}) does not run over the prefix lengths 1 .. len(name_components) - 1"
+        var = lp_.target.id
+        src = _closure(lp_, [produced])
+        sl = [s_ for e in src for s_ in ast.walk(e) if isinstance(s_, ast.Subscript) and isinstance(s_.slice, ast.Slice) and _is_components(fn, s_.value)[0]]
+        good_slice = bool(sl) and all((s_.slice.lower is None or (isinstance(s_.slice.lower, ast.Constant) and s_.slice.lower.value == 0))
+                                      and isinstance(s_.slice.upper, ast.Name) and s_.slice.upper.id == var for s_ in sl)
+        if not good_slice:
+            return False, desc, "the ancestor name is not name_components[0:i] for the loop index i"
+        return True, desc, ""
+
     for c in adds:
         lp = pm.get(id(c))
         while lp is not None and not isinstance(lp, ast.For):
             lp = pm.get(id(lp))
-        if lp is None or not isinstance(lp.iter, ast.Call) or not (isinstance(lp.iter.func, ast.Name) and lp.iter.func.id == "range"):
+        if lp is None or not c.args:
             continue
-        src = _closure(lp, [c.args[0]]) if c.args else []
-        if not any("name_components" in _attrs(e) for e in src):
-            continue
-        ra = lp.iter.args
-        txt = [ast.unparse(a).replace(" ", "") for a in ra]
-        lens = [t for t in txt if t.startswith("len(") and "name_components" in t]
-        if len(ra) == 3 and txt[2] == "-1":
-            # descending: range(len(nc) - 1, 0, -1) -> i = len-1 .. 1
-            good = txt[0].endswith(")-1") and bool(lens) and txt[1] == "0"
-            detail = f"descending range({', '.join(txt)}) does not run from len(name_components)-1 down to 1"
-        elif len(ra) == 2:
-            good = txt[0] == "1" and txt[1].startswith("len(") and "name_components" in txt[1] and not txt[1].endswith("-1")
-            detail = f"ascending range({', '.join(txt)}) does not run from 1 to len(name_components)-1"
+        desc = False
+        if isinstance(lp.iter, ast.Call) and isinstance(lp.iter.func, ast.Name) and lp.iter.func.id == "range":
+            src = _closure(lp, [c.args[0]])
+            if not any("name_components" in _attrs(pyfront.subst_locals(bt.node, e)) for e in src):
+                continue
+            good, desc, detail_ = _prefix_loop(bt.node, lp, c.args[0])
+        elif isinstance(lp.iter, ast.Call) and isinstance(lp.iter.func, ast.Name) and lp.iter.func.id in m.funcs and isinstance(lp.target, ast.Name) \
+                and isinstance(c.args[0], ast.Name) and c.args[0].id == lp.target.id:
+            # the ancestor names come from a module-level generator; the consumer adds each item
+            h = m.funcs[lp.iter.func.id]
+            hl = [n_ for n_ in h.node.body if isinstance(n_, ast.For)]
+            ys = [y for n_ in hl for y in ast.walk(n_) if isinstance(y, ast.Yield) and y.value is not None]
+            other = [y for y in ast.walk(h.node) if isinstance(y, (ast.Yield, ast.YieldFrom)) and not any(y is z for z in ys)]
+            if len(hl) != 1 or len(ys) != 1 or other or any(isinstance(x, (ast.If, ast.Break, ast.Continue, ast.Return)) for x in ast.walk(hl[0])):
+                good, detail_ = False, f"the generator {h.short} is not a single unconditional loop yielding one ancestor name per round"
+            else:
+                good, desc, detail_ = _prefix_loop(h.node, hl[0], ys[0].value)
         else:
-            good = False
-            detail = f"range({', '.join(txt)}) not recognised"
-        # slice [0:i]
-        var = lp.target.id if isinstance(lp.target, ast.Name) else None
-        sl = [s for e in src for s in ast.walk(e) if isinstance(s, ast.Subscript) and isinstance(s.slice, ast.Slice) and "name_components" in _attrs(s.value) | ({s.value.attr} if isinstance(s.value, ast.Attribute) else set())]
-        good_slice = bool(sl) and all((s.slice.lower is None or (isinstance(s.slice.lower, ast.Constant) and s.slice.lower.value == 0)) and isinstance(s.slice.upper, ast.Name) and s.slice.upper.id == var for s in sl)
-        if not good_slice:
-            detail = "the ancestor name is not name_components[0:i] for the loop index i"
-        # a break out of the loop is sound only when the ancestor is already indexed
+            continue
+        if not good:
+            detail = detail_
+        # a break out of the loop is sound only when the ancestor is already indexed (and the longer prefixes come first)
         brs = [b for b in ast.walk(lp) if isinstance(b, (ast.Break, ast.Continue))]
         good_break = True
         for b in brs:
             terms = pyfront.guard_terms(pyfront.guards_of(lp, b) or ())
-            good_break = good_break and any(" in " in e and p for e, p in terms) and len(ra) == 3
-        if not good_break:
+            good_break = good_break and any(" in " in e and p for e, p in terms) and desc
+        if good and not good_break:
             detail = "the ancestor loop is left early on a condition other than 'already indexed'"
-        ok = good and good_slice and good_break
+        ok = good and good_break
         break
     if not ok and detail.startswith("no loop indexing"):
         lp = None
